@@ -2,6 +2,9 @@ package props
 
 import (
 	"fmt"
+	"go/ast"
+	"go/token"
+	"strconv"
 	"sort"
 	"strings"
 
@@ -95,4 +98,55 @@ func stringSet(l []string) map[string]bool {
 		out[s] = true
 	}
 	return out
+}
+
+// c18LongestUnit (R16): the table of SVG units holds one unit whose name ends another (em, rem).  A loop that finds
+// the unit of a length by testing suffixes must therefore look at the whole table and keep the longest match: it
+// has no early exit.  (`1rem` matched `em`; `1r` is not a number and the image was refused.)
+func c18LongestUnit(c *core.Check) {
+	p := c.Prog
+	r := c.Rule("R16", "longest unit wins: the units table of package svg contains a unit that is a proper suffix of another; the loop of parseValue that matches a unit by suffix has no early exit (it examines every unit)", 1)
+	tab, err := p.Table("svg", "units")
+	fn := p.Fn("svg", "parseValue")
+	if err != nil || fn == nil {
+		r.Anchor("svg.units / svg.parseValue")
+		return
+	}
+	var names []string
+	for _, e := range tab {
+		if lit, ok := e.Val.(*ast.BasicLit); ok && lit.Kind == token.STRING {
+			if s, err := strconv.Unquote(lit.Value); err == nil && s != "" {
+				names = append(names, s)
+			}
+		}
+	}
+	nested := ""
+	for _, a := range names {
+		for _, b := range names {
+			if a != b && strings.HasSuffix(b, a) {
+				nested = a + " ends " + b
+			}
+		}
+	}
+	key := "svg.parseValue | unit suffix loop"
+	if nested == "" {
+		r.OK(key, p.Pos(fn.Pos()), fmt.Sprintf("no unit of the %d in the table is a suffix of another", len(names)))
+		return
+	}
+	var loop *core.Loop
+	for _, l := range core.Loops(fn) {
+		for b := range l.Blocks {
+			for _, in := range b.Instrs {
+				if call, ok := in.(*ssa.Call); ok && call.Call.StaticCallee() != nil && call.Call.StaticCallee().Name() == "HasSuffix" {
+					loop = l
+				}
+			}
+		}
+	}
+	if loop == nil {
+		r.Unknown(key, p.Pos(fn.Pos()), "no loop testing a suffix")
+		return
+	}
+	_, early := core.EveryIterationPasses(loop, func(ssa.Instruction) bool { return false })
+	r.Cond(len(early) == 0, key, p.Pos(loop.Header.Instrs[0].Pos()), "the loop examines every unit ("+nested+")", "the loop leaves at the first match although "+nested+" in the table: a length in the longer unit is read with the shorter one and the rest is not a number")
 }
